@@ -12,8 +12,9 @@ RULE = (
     "u {c, c+-1 : c an integer constant of the current fit_dtype code object}, plus the one-argument "
     "form for every negative g; interior: Hypothesis integers over the same domain. Oracle: numpy.iinfo "
     "only. Non-trivial = mixed-sign pair (min < 0 < max); distinct by (max, min). dense_output: the same oracle applied "
-    "to the dtype iindex.to_array() selects by default for generated value sets (the INDX coordinate word is pinned "
-    "byte-for-byte by C11)."
+    "to the dtype iindex.to_array() selects by default for generated value sets. indx_word: the coordinate word "
+    "size byte of files written by IndxIO.save for generated entries (arity 1..4, widest value in any key and "
+    "position, or in the common value) must be the narrowest of 1/2/4/8 (the full byte layout is C11's)."
 )
 ASSUMPTIONS = [
     "domain: -2^63 <= min <= 0, min <= max, max <= 2^63-1 when min < 0 else max < 2^64 "
@@ -198,7 +199,39 @@ def check_dense(case, rec):
         rec.nontrivial()
 
 
+def indx_cases(tier):
+    from .. import indxgen as G
+
+    return G.indx_cases(12, 4)
+
+
+def check_indx_word(case, rec):
+    """The coordinate word IndxIO.save writes is the narrowest unsigned word holding every coordinate and the
+    common value - wherever the largest value sits (any key, any position in the key)."""
+    import struct
+
+    from .. import indxgen as G
+    from .. import indxref as R
+
+    with libcall("IndxIO.save"):
+        data, _ = G.save_to_bytes(case)
+    (iw,) = struct.unpack_from("<B", data, 16 + 1 + 4)
+    want = R.index_word_for(G.case_list(case), case["common"])
+    if iw != want:
+        raise Violation("INDX coordinate word is %d bytes, the narrowest word holding every coordinate and the "
+                        "common value is %d bytes" % (iw, want), sig="INDX coordinate word size")
+    ents = case["entries"]
+    rec.note("indx word=%d" % iw)
+    if len(ents) >= 2 and case["arity"] >= 2:
+        last = max(tuple(c) for c, _ in ents)
+        biggest = max(max(c) for c, _ in ents)
+        if biggest not in last and biggest > case["common"]:
+            rec.nontrivial()
+
+
 SUBS = [
+    Sub("indx_word", check_indx_word, strategy=indx_cases, examples={"quick": 3000, "thorough": 100000},
+        shards={"quick": 8, "thorough": 16}),
     Sub("dense_output", check_dense, strategy=dense_cases, examples={"quick": 6000, "thorough": 300000},
         shards={"quick": 4, "thorough": 16}),
     Sub("grid", check, enumerate=enum_grid, exhaustive=True,
